@@ -12,6 +12,10 @@ LEVELS = {"C13": "proof", "C18": "proof"}
 
 
 def main():
+    if len(sys.argv) > 1 and sys.argv[1] == "selftest":
+        from selftest.run import main as st
+
+        sys.exit(st(sys.argv[2:]))
     ap = argparse.ArgumentParser()
     ap.add_argument("prop")
     ap.add_argument("--tier", default=os.environ.get("VERIF_TIER") or "quick", choices=["quick", "thorough"])
